@@ -95,8 +95,10 @@ def check(s, calls, t, centre, angle, k):
     # alignment
     al = s.aligned()
     chord = s.start.distanceFrom(s.end)
-    near(al.start, (0.0, 0.0), 'aligned start at origin', mag)
-    near(al.end, (chord, 0.0), 'aligned end on the x-axis at the chord length', mag)
+    # (the aligned coordinates are computed with one cancellation at the magnitude of the coordinates: measured worst error of the unchanged code
+    # 2.3e-13 of that magnitude over 20 000 segments at magnitudes 1 .. 1e10 with chords 1e-6 .. 1e3; 1e-11 leaves a factor 40)
+    near(al.start, (0.0, 0.0), 'aligned start at origin', mag * 1e-2)
+    near(al.end, (chord, 0.0), 'aligned end on the x-axis at the chord length', mag * 1e-2)
     return fails
 
 
@@ -114,6 +116,16 @@ def search(ctx):
         if len(samples) < 3: samples.append({'segment': gen.seg_json(s), 'calls': calls, 't': t})
         f = check(s, calls, t, centre, angle, k)
         if f: fails.append({'class': 'C09-identity', 'what': f[0], 'input': {'segment': gen.seg_json(s), 'calls': calls, 't': t, 'centre': [centre.x, centre.y], 'angle': angle, 'k': k}, 'observed': f, 'expected': 'identities of C09 within 1e-9*scale'})
+    # segments far from the origin whose chord is tiny against the coordinates (1e-10.5 .. 1e-9.2 of them) but far above the rounding of the alignment
+    for _ in range(ctx.n(60, 1500)):
+        mg = 10.0 ** rng.uniform(2, 10); ch = mg * 10.0 ** rng.uniform(-10.5, -9.2)
+        a = P(rng.choice([-1, 1]) * rng.uniform(0.3, 1) * mg, rng.choice([-1, 1]) * rng.uniform(0.3, 1) * mg)
+        d = P(rng.uniform(-1, 1) * ch, rng.uniform(-1, 1) * ch)
+        k_ = rng.choice([2, 3, 4]); s = gen.KINDS[k_](a, *[a + P(rng.uniform(-1, 1) * ch, rng.uniform(-1, 1) * ch) for _ in range(k_ - 2)], a + d)
+        al = s.aligned(); chord = s.start.distanceFrom(s.end); tol = 1e-11 * mg
+        n += 1; dist['far-short-chord/align'] = dist.get('far-short-chord/align', 0) + 1
+        if chord > 20 * tol and max(abs(al.start.x), abs(al.start.y), abs(al.end.x - chord), abs(al.end.y)) > tol:
+            fails.append({'class': 'C09-identity', 'what': f'aligned: start {al.start} end {al.end}, expected (0,0) and ({chord!r},0) within {tol:.3g}', 'input': None, 'observed': repr(al), 'expected': 'start at the origin, end on the x-axis at the chord length'})
     # paths built by the shape constructors (which share Point objects between neighbouring segments), transformed directly
     from beziers.path.geometricshapes import Ellipse, Rectangle
     for _ in range(ctx.n(20, 300)):
